@@ -1,6 +1,6 @@
 """Builds the contract registry used by every engine-A check."""
 from vf.contracts import Registry
-from . import optimisation, kernels, parser, colors
+from . import optimisation, kernels, parser, colors, contrast
 
 INLINE = [
     'cm_colors.core.colors:Color._parse', 'cm_colors.core.colors:Color.is_valid', 'cm_colors.core.colors:Color.rgb',
@@ -15,5 +15,6 @@ def build():
     parser.register_format(reg)
     optimisation.register(reg)
     colors.register(reg)
+    contrast.register(reg)
     reg.mark_inline(*INLINE)
     return reg
